@@ -18,9 +18,12 @@ theorem decodes (regs : Regs) (m : Msg) (bs rest : Bytes) (depth : Nat)
   Proofs.decMsg_lenient regs m bs rest depth h hwf hd
 
 /-- the library's own encoding is one of the permitted encodings, so a peer's encoding of a
-    message decodes to the same value as the library's own encoding of it -/
-theorem own_encoding_permitted (m : Msg) (h : m.WF {}) : MsgL (fillRaw m) (encMsg m) :=
-  Proofs.msgL_encMsg m h
+    message decodes to the same value as the library's own encoding of it.  The size bound is
+    needed because `LenEnc` (X.690 §8.1.3.5) has at most 127 length octets: a longer encoding
+    has no definite length form at all. -/
+theorem own_encoding_permitted (m : Msg) (h : m.WF {}) (hb : (encMsg m).length < 256 ^ 126) :
+    MsgL (fillRaw m) (encMsg m) :=
+  Proofs.msgL_encMsg m h hb
 
 theorem same_as_own (regs : Regs) (m : Msg) (bs : Bytes) (depth : Nat)
     (h : MsgL (fillRaw m) bs) (hwf : m.WF regs) (hd : m.op.filterDepth < depth) :
